@@ -12,7 +12,7 @@ must have the truth table of the condition tree under every valuation of the rul
 from __future__ import annotations
 import copy, itertools, json, random
 from .common import Verdict, cps, uncps, outcome_of_exception
-from . import corrbackend as CB
+from . import corrbackend as CB, c08
 
 ID = "C10"
 GEN = ["Corr"]
@@ -265,6 +265,12 @@ def gen_cases(tier, seed, gen, effort):
                 main["timespan"] = cnt + u
                 c["cfg"], c["method"] = cfg, None
                 cases.append(c)
+    # a referenced rule that fails: the correlation rule over it cannot embed "the query that rule converts to" and must fail
+    # too (one error record in collecting mode), instead of emitting a query without that sub-query (stream shared with C08)
+    for order in ([0, 1, 2, 3], [2, 3, 0, 1], [3, 2, 1, 0]):
+        for failkind in ("placeholder", "badvalue", "missingdet", "pipefail"):
+            for collect in (True, False):
+                cases.append({"corrfail": failkind, "order": order, "collect": collect})
     return cases, False
 
 
@@ -384,6 +390,8 @@ def closure(case, r):
 
 
 def run_impl(case):
+    if case.get("corrfail"):
+        return c08.run_corrfail(case)
     main = main_of(case)
     from sigma.collection import SigmaCollection
     try:
@@ -508,6 +516,8 @@ def reindex_ext(case, impl):
 
 
 def make_request(case, impl, gen):
+    if case.get("corrfail"):
+        return {"op": "ping"}
     if impl["outcome"].startswith("env:"):
         return None
     main = main_of(case)
@@ -685,6 +695,8 @@ def expected_others(case, impl):
 
 
 def judge(case, impl, reply):
+    if case.get("corrfail"):
+        return c08.judge_corrfail(case, impl)
     main = main_of(case)
     oc = impl["outcome"]
     tags = [f"type:{main['type']}", f"outcome:{oc.split(':')[0] if oc != 'ok' else 'ok'}"]
